@@ -1,4 +1,4 @@
 SPECIFICATION Spec
-INVARIANTS P_C05_OneProxyDate P_C05_DateIsCurrent
+INVARIANTS P_C05_OneProxyDate P_C05_OneProxyClaims P_C05_DateIsCurrent
 POSTCONDITION Accepted
 CHECK_DEADLOCK FALSE
